@@ -312,6 +312,59 @@ def run(ctx):
                 order.append(("programs", x["l"]))
         seq = [k for k, _ in sorted(order, key=lambda kv: kv[1])]
         ctx.require(seq == ["fs-events", "globset", "programs"], "R11.4", "stage-order", "fs-event kinds, then path filters, then filter programs", cf.loc(cf.line), detail=str(seq))
+        # verdict table of the CLI filter over all syntactic paths
+        KIND = "slice::contains(self.fs_events, normalised)"
+        INNER = "Filterer::check_event(self.inner, event, priority)?"
+        PROGS = "FilterProgs::check(progs, event)?"
+        en4 = pathx.Enum(interesting=lambda d: strip_generics(d).endswith(("Filterer::check_event", "FilterProgs::check", "slice::contains")))
+        rows4 = set()
+        bad4 = []
+        for q in en4.paths(thir.root(body)):
+            if q.out == "ret" and "from_residual" in (q.val or ""):
+                continue    # an error of the inner filterer / a filter program is propagated as the event's filter error
+            ev = {"kind": None, "inner": None, "progs": None, "hasprogs": None}
+            for e in q.ev:
+                if e[0] == "branch":
+                    core, neg = pathx.split_not(e[1].replace("^", ""))
+                    tr = (e[2] != neg)
+                    if core == KIND:
+                        ev["kind"] = tr
+                    elif core == INNER:
+                        ev["inner"] = tr
+                    elif core == PROGS:
+                        ev["progs"] = tr
+                elif e[0] == "iflet" and e[1].replace("^", "") == "self.progs":
+                    ev["hasprogs"] = e[3] if "Some" in e[2] else (not e[3])
+                elif e[0] == "loop":
+                    for it in e[1]:
+                        # iterations that stay in the loop: the kind is allowed, the tag is not a kind, or the kind is not one the option knows
+                        okc = ("loop-break",) not in it
+                        for x in it:
+                            if x[0] == "branch" and pathx.split_not(x[1].replace("^", ""))[0] == KIND and (x[2] != pathx.split_not(x[1])[1]) is not True:
+                                okc = False
+                        if not okc:
+                            bad4.append("an event kind that is not allowed does not reject: " + pathx.show_events(it)[:160])
+            res = {"Ok{0: True}": True, "Ok{0: False}": False}.get(q.val)
+            if res is None:
+                bad4.append("result %s" % q.val)
+                continue
+            if ev["kind"] is False:
+                exp = False
+            elif ev["inner"] is False:
+                exp = False
+            elif ev["inner"] is True and ev["hasprogs"] is False:
+                exp = True
+            elif ev["inner"] is True and ev["hasprogs"] is True and ev["progs"] is not None:
+                exp = ev["progs"]
+            else:
+                bad4.append("verdict %s without consulting every stage (%s)" % (res, {k: v for k, v in ev.items() if v is not None}))
+                continue
+            rows4.add(tuple(sorted((k, v) for k, v in ev.items() if v is not None)))
+            if res != exp:
+                bad4.append("verdict %s where %s is documented (%s)" % (res, exp, {k: v for k, v in ev.items() if v is not None}))
+        ctx.require(not bad4 and len(rows4) >= 5, "R11.4", "cli-verdict-table", "the CLI filter rejects on a disallowed kind, on the path filterer's reject and on a filter program's reject, "
+                    "and passes otherwise (%d rows)" % len(rows4), cf.loc(cf.line), detail="; ".join(bad4)[:500],
+                    fail="the CLI filter's verdict no longer follows its stages: " + "; ".join(bad4)[:300])
         ms = [m for m in thir.find(thir.root(body), "match") if m["src"] == "Normal" and "EventKind" in m["sty"]]
         if len(ms) != 1:
             ctx.violation("R11.4", "floor:kind-match", "the fs-event normalisation table was not found", cf.loc(cf.line))
